@@ -53,6 +53,7 @@ def dispatch (j : Json) : Except String Json := do
   | "planted_major" => opPlantedMajor j
   | "planted_minor" => opPlantedMinor j
   | "minor_readout" => opMinorReadout j
+  | "minor_spec" => opMinorSpec j
   | "vcf_load" => opVcfLoad j
   | "dump" => opDump j
   | "ping" => pure (objJ [("pong", boolJ true)])
